@@ -142,13 +142,6 @@ theorem step_reduce (fuel : Nat) (x : τ) (xs : List τ) (s : Nat) (srest : List
   simp only [Int.toNat_natCast]
   rw [if_neg (by omega)]
 
-theorem step_nil (fuel : Nat) (sts : List Nat) (values : List V) :
-    (∃ v, lrParse T term leaf act fuel [] sts values = .accept v) → False := by
-  rintro ⟨v, h⟩
-  cases fuel with
-  | zero => simp [lrParse] at h
-  | succ f => cases sts <;> simp [lrParse] at h
-
 end steps
 
 theorem tab0 : sugarTables.action[0]? = some (row [(1, .shift 1)] .err) := rfl
